@@ -1215,7 +1215,7 @@ def r04_5(ctx):
         ctx.ob("control:hint-sized-allocation", seen, "tables/controls/src/lib.rs", "enumerator sees `with_capacity(iter.size_hint().0)` in the positive control", trivial=True)
 
 
-@rule("R04.6", 1, "the MessagePack size calculator adds sizes in usize only: no sum of a header size and a declared length is formed in a narrower integer type (it would wrap in release builds and panic in debug builds for lengths near the type's maximum)", ["C04", "C06", "C02"])
+@rule("R04.6", 1, "the MessagePack size calculator adds sizes in usize only: no sum of a header size and a declared length is formed in a narrower integer type (it would wrap in release builds and panic in debug builds for lengths near the type's maximum)", ["C04", "C06", "C02", "C03"])
 def r04_6(ctx):
     import r_c18
     import ival
